@@ -148,6 +148,7 @@ class OWElement(MemoryElement):
         if not self._update_finished_cb:
             self._update_finished_cb = update_finished_cb
             self.valid = False
+            self.elements = {}
             logger.debug('Updating content of memory {}'.format(self.id))
             # Start reading the header
             self.mem_handler.read(self, 0, 11)
